@@ -287,6 +287,10 @@ class SymReal:
     def arccos(self): return cur().uf1("arccos", self)
     def conjugate(self): return self
 
+    def __format__(self, spec):
+        # output formatting (print / log messages) is not part of any claim: a placeholder text
+        return "<sym>"
+
     def __repr__(self):
         return "SymReal(%s)" % str(self.t)[:80]
 
